@@ -22,6 +22,7 @@ CONSTANTS Mode,        \* "pregel" | "dag" | "wf"
           AllowRerun, AllowFail, AllowMulti,
           MaxChoice,   \* set of max-step settings (0 = default) for pregel
           MaxEnds,     \* branches have 2..MaxEnds targets
+          AllowDup,    \* any-predecessor mode: admit a branch whose ends include a target the same node also has a plain edge to
           AllowOrphans \* acyclic modes: admit nodes that no control path from START reaches (finding D12)
 
 AllNames == <<"a", "b", "c", "d">>
@@ -63,7 +64,7 @@ AddEdge(e) == /\ phase = "e" /\ Cardinality(edges) < MaxEdges
 ToBranches == /\ phase = "e" /\ phase' = "b" /\ UNCHANGED <<edges, brs, deco>>
 AddBranch(b) == /\ phase = "b" /\ Len(brs) < MaxBr /\ deco.pol = <<>>
                 /\ BRank(b) > MaxRank(BrSet, BRank)
-                /\ ~\E x \in edges : x[1] = b.from /\ x[2] \in b.ends
+                /\ (AllowDup /\ Mode = "pregel") \/ ~\E x \in edges : x[1] = b.from /\ x[2] \in b.ends
                 /\ brs' = Append(brs, b) /\ UNCHANGED <<phase, edges, deco>>
 
 CtrlEdge(s, d) == \E x \in edges : x[1] = s /\ x[2] = d /\ x[3] \in {"cd", "c"}
